@@ -546,6 +546,9 @@ class FaultyWalkUnit(WalkUnit):
     def known_now(self):
         return []
 
+    def extra_exit_checks(self, interp, exc):
+        pass
+
     def invariant(self, interp, frame, when):
         oidt = self.rt.oid
         entries, _arr = self._state(interp, frame)
@@ -633,6 +636,7 @@ class FaultyWalkUnit(WalkUnit):
             self.call_target(interp, client, list(self.sorted_roots), **kwargs)
         except PyExc as pe:
             exc = pe.obj
+        self.extra_exit_checks(interp, exc)
         base = oname("C03", self.target, "exit", "")
         faulty = get_cls(rt, interp, "puresnmp.exc:FaultySNMPImplementation")
         st = self.stalled(interp)
@@ -653,6 +657,44 @@ class FaultyWalkUnit(WalkUnit):
         if self.errors == "warn":
             ctx.check(base + "lenient-mode-never-raises-FaultySNMPImplementation", not exc_is(exc, faulty))
         return "raises:%s" % exc.cls.name
+
+
+class WalkPropagates(FaultyWalkUnit):
+    """A request inside a walk that fails with something else than a faulty answer - a foreign request id (C07), an agent
+    error status (C08) - ends the walk with exactly that exception, in strict AND in lenient error handling, on the first
+    request and on any later one."""
+
+    def __init__(self, n, bulk, errors, phase, active, exc_spec, prop):
+        FaultyWalkUnit.__init__(self, n, bulk, errors, phase, active)
+        self.exc_spec, self.props = exc_spec, (prop,)
+        self.prop_ = prop
+        self.name = self.name.replace("any-agent", "request fails with %s" % exc_spec.split(":")[1])
+
+    def respond(self, interp, pdu, n):
+        cls = get_cls(self.rt, interp, self.exc_spec)
+        args = [interp.ctx.fresh_int("request_id"), interp.ctx.fresh_int("response_id")] if "InvalidResponseId" in self.exc_spec else []
+        try:
+            self.raised = self.rt.instantiate(interp, cls, args, {})
+        except PyExc:
+            self.raised = self.rt.make_exception(cls, [])
+        raise PyExc(self.raised)
+
+    def extra_exit_checks(self, interp, exc):
+        what = self.exc_spec.split(":")[1]
+        interp.ctx.check(oname(self.prop_, self.target, "exit", "a-request-failing-with-%s-ends-the-walk-with-that-exception(%s-mode)"
+                               % (what, "lenient" if self.errors == "warn" else "strict")),
+                         getattr(self, "raised", None) is not None and exc is self.raised)
+
+
+def units_propagate(prop, exc_spec):
+    def units(tier):
+        us = []
+        for n, m in [(1, None), (2, None), (1, 2)]:
+            for errors in ("strict", "warn"):
+                us.append(WalkPropagates(n, m, errors, "prologue", (), exc_spec, prop))
+                us.append(WalkPropagates(n, m, errors, "step", tuple(range(n)), exc_spec, prop))
+        return us
+    return units
 
 
 def units_c03(tier):
